@@ -64,11 +64,17 @@ def generate(tier, want_sim=True, light=False):
         if want_sim:
             runs.append(("InnerDef", consts("InnerDef", 5, max_types=3, max_len=3, widths="all"), 3000))
             runs.append(("InnerDef", consts("InnerDef", 5, max_types=3, max_len=3, widths="all", high=True), 3000))
+    _run_parallel(vs, runs, sd)
+    return vs
+
+
+def _run_parallel(vs, runs, sd):
+    """The TLC configurations of one tier, one after the other (running them
+    side by side was measured to be no faster on this sandbox)."""
     for inner, c, sim in runs:
         res = run_tlc("WireMC", c, invariants=WIRE_INVARIANTS, prefix=("VEC", "INNER"),
                       simulate=sim, depth=400, seed=sd)
         vs.add_run(inner, res)
-    return vs
 
 
 def generate_layouts(tier):
@@ -85,10 +91,7 @@ def generate_layouts(tier):
         runs = [("InnerDef", consts("InnerDef", 2, max_len=0), None),
                 ("InnerSmall", consts("InnerSmall", 3, max_len=0, widths="u18"), None),
                 ("InnerDef", consts("InnerDef", 4, max_types=2, max_len=0, widths="all"), 6000)]
-    for inner, c, sim in runs:
-        res = run_tlc("WireMC", c, invariants=WIRE_INVARIANTS, prefix=("VEC", "INNER"),
-                      simulate=sim, depth=400, seed=sd)
-        vs.add_run(inner, res)
+    _run_parallel(vs, runs, sd)
     return vs
 
 
